@@ -708,7 +708,7 @@ func (c *Ctx) ruleRecover(rule string) {
 		return
 	}
 	plugin := map[*ssa.Function]bool{}
-	for _, k := range []string{"schema.CallableSchema.CallStep"} {
+	for _, k := range []string{"schema.CallableSchema.CallStep", "schema.CallableSchema.CallSignal"} {
 		if f := c.fn(rule, k); f != nil {
 			plugin[f] = true
 		}
@@ -745,16 +745,16 @@ func (c *Ctx) ruleRecover(rule string) {
 					}
 					k := key(rule, c.M.Key(fn), "go "+c.M.Key(tgt))
 					if unprotected {
-						c.R.Bad(rule, k, c.M.InstrPos(g), "goroutine runs step code without a recover scope",
-							"a panic in the step handler (or in the schema engine below CallStep) unwinds this goroutine unrecovered and kills the plugin process: no terminal message for any run")
+						c.R.Bad(rule, k, c.M.InstrPos(g), "goroutine runs step or signal-handler code without a recover scope",
+							"a panic in the handler (or in the schema engine below CallStep / CallSignal) unwinds this goroutine unrecovered and kills the plugin process: no terminal message for any run")
 					} else {
-						c.R.Ok(rule, k, c.M.InstrPos(g), "goroutine running step code", "CallStep is only reachable through a function with a deferred recover")
+						c.R.Ok(rule, k, c.M.InstrPos(g), "goroutine running step or signal-handler code", "CallStep / CallSignal is only reachable through a function with a deferred recover")
 					}
 				}
 			}
 		}
 	}
-	c.R.Floor(rule, 1)
+	c.R.Floor(rule, 2)
 	_ = n
 }
 
@@ -1865,8 +1865,11 @@ func (c *Ctx) ruleBlockLock(rule string) {
 				case what == "encode":
 					c.R.Ok(rule, k, pos, "blocking operation under the client mutex", "the encoder write is what the mutex serialises")
 				case what == "channel send" && c.sendOnTableChannel(in.(*ssa.Send), ro):
-					c.R.Except(rule, k, pos, "blocking operation under the client mutex",
-						"E-SIGNALSEND: the send to the caller's signal channel happens under the mutex by design (it excludes the close in the same discipline, see R-CHAN); a caller that stops receiving signals stalls the client - outside the healthy-peer premise")
+					// formerly excepted (E-SIGNALSEND) as "a caller that stops receiving is outside the premise"; a caller
+					// that does receive, and answers each emitted signal with a signal to the step, is inside it, and
+					// deadlocks: its answer needs sendCBOR, which needs this mutex (demonstrated, known finding)
+					c.R.Bad(rule, k, pos, "the read loop hands an emitted signal to the caller's channel while holding the client mutex",
+						"the caller's consumer may itself be waiting for the write loop to take a signal for the step, and the write loop needs this mutex in sendCBOR: read loop -> consumer -> write loop -> mutex -> read loop; Execute then never returns although the peer sends its result")
 				default:
 					c.R.Bad(rule, k, pos, what+" while the client mutex is held", "every other Execute, result delivery and Close needs this mutex: a peer or caller that does not respond blocks them all")
 				}
